@@ -11,8 +11,15 @@ from harness.props import editing as ed
 RULE = ("(purity) seeded random documents x paths of every segment kind (keys, indexes incl. negative, slices, anchors, searches, "
         "keyword searches, wildcards, traversals) and collector expressions over them with + - &: a deep snapshot (canonical JSON "
         "incl. anchors) is taken before and after exists(), get_nodes(mustexist=True) and — when the path exists — "
-        "get_nodes(mustexist=False); any difference is a violation.  (creation) documents x straight-line key/index paths made of an "
-        "existing prefix of every length followed by a missing tail of 1-4 segments (also fully existing paths), through "
+        "get_nodes(mustexist=False); any difference is a violation.  A third of the documents carry negative, zero and positive "
+        "INTEGER map keys; straight-line paths to their nodes (dot and slash notation) exist by construction, so the optional-match "
+        "query is judged on them whatever exists() answers.  Subtraction collectors over maps sharing keys whose values are "
+        "look-alike pairs (8080 / '8080', 1.5 / '1.5', true / 'True': unequal, same text), truly equal, or different: a pair that "
+        "vanishes although no EQUAL pair is among the subtracted results gets its own signature.  (creation) documents x straight-line key/index paths made of an "
+        "existing prefix of every length (through integer keys too, addressed by their digits) followed by a missing tail of 1-4 "
+        "segments (also fully existing paths; missing keys with every character that needs a backslash escape - separators, "
+        "brackets, quotes, &, *, space, the backslash ... - in dot and slash notation, fenced by 'the text parses to the intended "
+        "segments'; missing negative / zero / positive digit keys), through "
         "get_nodes(mustexist=False, default_value=v) and set_value(v, format): the whole document afterwards must equal the Lean model "
         "createPath; directly on the real code: the path then resolves to exactly one node holding the value and every pre-existing "
         "node that is not an ancestor of the created spine is unchanged.  distinct_nontrivial = distinct (document, path) pairs whose "
@@ -42,21 +49,95 @@ CREATE_CORPUS = [
 NEWKEYS = ["n", "m", "new", "a", "b", "k", "z"]
 
 
-def path_text(segs):
+def esc_key(key):
+    """Backslash-escape every character of a key that is not a letter, a digit, `_` or `-`."""
+    return "".join(c if (c.isalnum() or c in "_-") else "\\" + c for c in str(key))
+
+
+def path_text(segs, sep="."):
     t = ""
     for kind, ref in segs:
         if kind == "i":
             t += "[%d]" % ref
+        elif sep == "/":
+            t += "/" + esc_key(ref)
         else:
-            t += ("." if t else "") + str(ref)
+            t += ("." if t else "") + esc_key(ref)
     return t
 
 
-def gen_segs(rng, doc):
+def parses_to(path, segs):
+    """Fence (the parser is C14's subject): the path text must parse to exactly the intended key / index segments."""
+    from yamlpath import YAMLPath
+    from yamlpath.enums import PathSegmentTypes
+    try:
+        got = list(YAMLPath(path).escaped)
+    except Exception:  # noqa
+        return False
+    if len(got) != len(segs):
+        return False
+    for (t, a), (kind, ref) in zip(got, segs):
+        if kind == "i":
+            if t is not PathSegmentTypes.INDEX or a != ref:
+                return False
+        elif t is not PathSegmentTypes.KEY or a != str(ref):
+            return False
+    return True
+
+
+# characters that need a backslash somewhere in a YAML Path (separators, brackets, quotes, anchors, wildcards, search
+# operators, the backslash itself) and a few that do not
+ESC_CHARS = list(" ./[]()&*!{}'\"\\#=~^$%,:<>@|;?+")
+INT_KEYS = [-10, -2, -1, 0, 1, 2, 7]
+
+
+def gen_esc_key(rng):
+    c = rng.choice(ESC_CHARS)
+    r = rng.random()
+    if r < 0.55:
+        return rng.choice(["www", "a", "two", "n"]) + c + rng.choice(["example", "b", "words", "1"]) + (c + "com" if rng.random() < 0.3 else "")
+    if r < 0.8:
+        return c + rng.choice(["lit", "x"])
+    return rng.choice(["run", "x"]) + c
+
+
+def with_int_keys(rng, j, p=0.5):
+    """A copy of the document in which some map keys are replaced by negative, zero and positive integers."""
+    if j["k"] == "map":
+        ents = [[k, with_int_keys(rng, v, p)] for k, v in j["e"]]
+        if ents and rng.random() < p:
+            pool = [i for i in INT_KEYS if i not in [k for k, _ in ents]]
+            for n in rng.sample(range(len(ents)), min(len(ents), rng.choice([1, 1, 2, 3]))):
+                if pool and isinstance(ents[n][0], str):
+                    ents[n][0] = pool.pop(rng.randrange(len(pool)))
+        out = dict(j, e=ents)
+        return out
+    if j["k"] == "seq":
+        return dict(j, i=[with_int_keys(rng, v, p) for v in j["i"]])
+    return j
+
+
+def exact_path(rng, doc):
+    """A straight-line path (keys and indexes only) to an existing node, in dot or slash notation."""
+    nodes = ed.all_addrs(doc)
+    if not nodes:
+        return None
+    a, _ = rng.choice(nodes)
+    segs, cur = [], doc
+    for kind, ref in a:
+        if kind == "i":
+            segs.append(["i", ref - len(cur["i"]) if rng.random() < 0.2 else ref])
+            cur = cur["i"][ref]
+        else:
+            segs.append(["k", str(ref)])
+            cur = [v for k, v in cur["e"] if k == ref and type(k) is type(ref)][0]
+    return path_text(segs, rng.choice([".", "/"])), segs
+
+
+def gen_segs(rng, doc, esc=False, ints=False):
     """A straight-line path: an existing prefix of random length, then 0-4 further segments that
     mostly do not exist yet."""
     nodes = [((), doc)] + ed.all_addrs(doc)
-    nodes = [(a, n) for a, n in nodes if all(isinstance(r[1], str) or r[0] == "i" for r in a)]
     addr, node = rng.choice(nodes)
     segs = []
     cur = doc
@@ -65,9 +146,11 @@ def gen_segs(rng, doc):
             segs.append(["i", ref - len(cur["i"])])
         elif kind == "i" and rng.random() < 0.15:
             segs.append(["k", str(ref)])
+        elif kind == "k":
+            segs.append(["k", str(ref)])            # an integer key is addressed by its digits
         else:
             segs.append([kind, ref])
-        cur = cur["i"][ref] if kind == "i" else dict((k, v) for k, v in cur["e"])[ref]
+        cur = cur["i"][ref] if kind == "i" else [v for k, v in cur["e"] if k == ref and type(k) is type(ref)][0]
     tail = rng.choice([0, 1, 1, 2, 2, 3, 4])
     for i in range(tail):
         k = cur["k"] if cur is not None else None
@@ -77,13 +160,18 @@ def gen_segs(rng, doc):
         elif k == "map":
             have = [kk for kk, _ in cur["e"]]
             cand = [x for x in NEWKEYS if x not in have] or ["q"]
+            if esc and rng.random() < 0.6:
+                cand = [gen_esc_key(rng)]
+            elif ints and rng.random() < 0.3:
+                cand = [str(x) for x in INT_KEYS + [-7, 12] if x not in have]
             segs.append(["k", rng.choice(cand)] if rng.random() < 0.85 else ["i", rng.choice([0, 1])])
         else:
             r = rng.random()
-            segs.append(["k", rng.choice(NEWKEYS)] if r < 0.55 else (["i", rng.choice([0, 0, 1, 2])] if r < 0.9 else ["k", "2"]))
+            nk = gen_esc_key(rng) if esc and rng.random() < 0.6 else rng.choice(NEWKEYS)
+            segs.append(["k", nk] if r < 0.55 else (["i", rng.choice([0, 0, 1, 2])] if r < 0.9 else ["k", "2"]))
         cur = None
     if not segs:
-        segs = [["k", rng.choice(NEWKEYS)]]
+        segs = [["k", gen_esc_key(rng) if esc else rng.choice(NEWKEYS)]]
     return segs
 
 
@@ -91,10 +179,13 @@ def gen_create_cases(rng, n):
     out = []
     for _ in range(n):
         doc = ed.gen_doc(rng)
+        ints = rng.random() < 0.3
+        if ints:
+            doc = with_int_keys(rng, doc)
         for _ in range(3):
             v = rng.choice(ed.VALUES)
-            out.append({"doc": doc, "segs": gen_segs(rng, doc), "v": [v[0], v[1]], "fmt": rng.choice(ed.FORMATS),
-                        "mode": rng.choice(["set", "set", "get"])})
+            out.append({"doc": doc, "segs": gen_segs(rng, doc, esc=rng.random() < 0.3, ints=ints), "v": [v[0], v[1]],
+                        "fmt": rng.choice(ed.FORMATS), "mode": rng.choice(["set", "set", "get"]), "sep": rng.choice([".", ".", "/"])})
     return out
 
 
@@ -102,8 +193,57 @@ def gen_purity_cases(rng, n):
     out = []
     for _ in range(n):
         doc = ed.gen_doc(rng)
+        ints = rng.random() < 0.3
+        if ints:
+            doc = with_int_keys(rng, doc)
         for _ in range(3):
+            if rng.random() < (0.5 if ints else 0.1):
+                ep = exact_path(rng, doc)
+                if ep is not None:
+                    out.append({"doc": doc, "path": ep[0], "segs": ep[1], "purity": True, "exact": True})
+                    continue
             out.append({"doc": doc, "path": ed.gen_path(rng, doc), "purity": True})
+    return out
+
+
+# look-alike values: unequal, yet str() of both is the same text
+LOOKALIKE = [[("int", 8080), ("str", "8080")], [("int", 1), ("str", "1")], [("float", 1.5), ("str", "1.5")],
+             [("bool", True), ("str", "True")], [("bool", False), ("str", "False")], [("int", 0), ("str", "0")],
+             [("int", -3), ("str", "-3")], [("float", 10.0), ("str", "10.0")]]
+
+
+def gen_lookalike_cases(rng, n):
+    """Subtraction collectors whose operands are maps sharing keys: per shared key the two values are a look-alike
+    pair (unequal, same text), truly equal, or plainly different."""
+    out = []
+    for _ in range(n):
+        keys = rng.sample(["port", "tls", "x", "y", "name", 1, -1], rng.randint(1, 4))
+        lhs, rhs, third = [], [], []
+        for k in keys:
+            grp = rng.choice(LOOKALIKE)
+            a, b = (grp[0], grp[1]) if rng.random() < 0.5 else (grp[1], grp[0])
+            r = rng.random()
+            if r < 0.6:
+                pass                                    # look-alike
+            elif r < 0.75:
+                b = a                                   # truly equal (known finding C09-F1)
+            else:
+                b = ("str", "other")
+            lhs.append([k, codec.scalar_to_json(a[1])])
+            if rng.random() < 0.85:
+                rhs.append([k, codec.scalar_to_json(b[1])])
+            third.append([k, codec.scalar_to_json(rng.choice([a, b, ("int", 9090)])[1])])
+        lhs.append(["own", {"k": "str", "v": "web"}])
+        rhs.append(["extra", {"k": "int", "v": "7"}])
+        rng.shuffle(rhs)
+        doc = {"k": "map", "e": [["service", {"k": "map", "e": lhs}], ["overrides", {"k": "map", "e": rhs}],
+                                  ["other", {"k": "map", "e": third}],
+                                  ["list", {"k": "seq", "i": [{"k": "map", "e": [list(e) for e in lhs[:2]]}, {"k": "map", "e": [list(e) for e in third[:2]]}]}]]}
+        k = str(rng.choice(rhs)[0])
+        for path in rng.sample(["(service)-(overrides.%s)" % k, "(service)-(overrides.*)", "(/service)-(/overrides/%s)" % k,
+                                "((service)+(other))-(overrides.%s)" % k, "((service)+(other))-(overrides.*)", "(list.*)-(overrides.%s)" % k,
+                                "(list.*)-(overrides.*)", "(service)-(overrides)", "(service)-(other.*)", "(*)-(overrides.*)"], 3):
+            out.append({"doc": doc, "path": path, "purity": True})
     return out
 
 
@@ -124,6 +264,7 @@ def run(chk: core.Check):
         rng = random.Random(chk.seed)
         quick = chk.tier == "quick"
         cases += gen_purity_cases(rng, 9000 if quick else 150000)
+        cases += gen_lookalike_cases(rng, 1500 if quick else 25000)
         cases += gen_create_cases(rng, 9000 if quick else 150000)
         rng.shuffle(cases)
         chunks = core.chunked(cases, 64)
@@ -185,6 +326,61 @@ def only_additions(before, after):
     return True
 
 
+def subtraction_class(j, after, path):
+    """'' when every key-value pair that vanished from the document has an EQUAL (Python ==) pair among the results of
+    the subtracted expressions (the known class C09-F1); ':unequal-values-removed' when a pair vanished whose value
+    differs from the subtracted one (e.g. 8080 vs "8080"); '' when the subtracted expressions cannot be evaluated
+    on their own (collector not at the start of the path)."""
+    from yamlpath import Processor, YAMLPath
+    from yamlpath.enums import PathSegmentTypes, CollectorOperators
+    from yamlpath.wrappers import NodeCoords
+    try:
+        segs = list(YAMLPath(path).escaped)
+    except Exception:  # noqa
+        return ""
+    if not segs or segs[0][0] is not PathSegmentTypes.COLLECTOR:
+        return ""
+    pairs = []
+
+    def add(node, parent=None, ref=None):
+        node = NodeCoords.unwrap_node_coords(node)
+        if isinstance(node, (list, set)) and not isinstance(node, dict):
+            for e in node:
+                add(e)
+        elif isinstance(parent, dict):
+            pairs.append((ref, node))
+        elif isinstance(node, dict):
+            pairs.extend(node.items())
+    for t, a in segs:
+        if t is PathSegmentTypes.COLLECTOR and a.operation is CollectorOperators.SUBTRACTION:
+            twin = ed.build(j)
+            res = ed.guarded(lambda: list(Processor(core.quiet_logger(), twin).get_nodes(a.expression, mustexist=True)))
+            if res[0] != "ok":
+                return ""
+            for nc in res[1]:
+                add(nc, nc.parent, nc.parentref)
+    fb, fa = ed.flat(j), ed.flat(after)
+    plain_before = {}
+    for addr in fb:
+        if addr not in fa and addr and addr[-1][0] == "k" and addr[:-1] in fa:
+            node = j
+            for kind, ref in addr:
+                node = [v for k, v in node["e"] if k == ref and type(k) is type(ref)][0] if kind == "k" else node["i"][ref]
+            plain_before[addr] = codec.json_to_plain(codec.strip_anchors(node))
+    for addr, val in plain_before.items():
+        key = addr[-1][1]
+        if not any(k == key and v == val for k, v in [(k, _plain(v)) for k, v in pairs]):
+            return ":unequal-values-removed"
+    return ""
+
+
+def _plain(v):
+    try:
+        return codec.json_to_plain(codec.node_to_json(v, anchors=False))
+    except Exception:  # noqa
+        return v
+
+
 def purity_case(case, bump, viol, keys):
     from yamlpath import Processor
     j, path = case["doc"], case["path"]
@@ -193,8 +389,9 @@ def purity_case(case, bump, viol, keys):
     matched = False
     exists = False
     n_required = -1
+    exact = bool(case.get("exact")) and parses_to(path, case.get("segs", []))
     for api in ("exists", "required", "optional"):
-        if api == "optional" and not exists:
+        if api == "optional" and not exists and not exact:
             continue
         doc = ed.build(j)
         proc = Processor(core.quiet_logger(), doc)
@@ -207,7 +404,13 @@ def purity_case(case, bump, viol, keys):
             n_required = res[1] if res[0] == "ok" else -1
         else:
             res = ed.guarded(lambda: len(list(proc.get_nodes(path, mustexist=False))))
-            if res[0] == "ok" and res[1] != n_required:
+            if res[0] not in ("ok", "timeout") and not exact:
+                # the optional query tried to create the rest of the path under a match of a search / wildcard that
+                # lacks it and was refused there (after creating under earlier matches): every branch does not
+                # exist, so this is not "a path that already exists"
+                bump("purity:optional-creates-in-unmatched-branch-not-judged")
+                continue
+            if res[0] == "ok" and res[1] != n_required and not exact:
                 # the path exists under some matches of a search/wildcard and is created under others:
                 # not "a path that already exists"
                 bump("purity:optional-creates-in-unmatched-branch-not-judged")
@@ -217,13 +420,18 @@ def purity_case(case, bump, viol, keys):
             return
         after = ed.snapshot(proc.data)
         bump("purity-call:%s:%s" % (api, res[0].split(":")[0]))
-        if after != j and api == "optional" and only_additions(j, after):
+        if after != j and api == "optional" and only_additions(j, after) and not exact:
             # created under a match of a search / wildcard that lacks the rest of the path:
             # creation, not a read of "a path that already exists"
             bump("purity:optional-creates-in-unmatched-branch-not-judged")
             continue
         if after != j:
-            viol.append(("query-mutates-document:" + kind, "%s on path %s changed the document" % (
+            sig = "query-mutates-document:" + kind
+            if exact:
+                sig = "query-mutates-document:existing-straight-path"     # the path leads to a node of the document by construction
+            elif kind == "collector-subtraction":
+                sig += subtraction_class(j, after, path)
+            viol.append((sig, "%s on path %s changed the document" % (
                 {"exists": "exists()", "required": "get_nodes(mustexist=True)", "optional": "get_nodes(mustexist=False)"}[api], path),
                 dict(case, api=api)))
             return
@@ -265,7 +473,9 @@ def real_create(case):
     from yamlpath import Processor
     from yamlpath.enums import YAMLValueFormats
     j = case["doc"]
-    path = path_text(case["segs"])
+    path = path_text(case["segs"], case.get("sep", "."))
+    if not parses_to(path, case["segs"]):
+        raise codec.OutOfModel("the path text does not parse to the intended key / index segments")
     v = case["v"][1]
     doc = ed.build(j)
     proc = Processor(core.quiet_logger(), doc)
@@ -312,8 +522,12 @@ def null_prefix(j, segs):
 def judge_create(case, r, ans, ns, bump, viol, disag, samples, keys, stats):
     res, after, resolved = r
     j = case["doc"]
-    path = path_text(case["segs"])
+    path = path_text(case["segs"], case.get("sep", "."))
     rep = dict(case, path=path)
+    if any(not (c.isalnum() or c in "_-") for k, r_ in case["segs"] if k == "k" for c in str(r_)):
+        bump("create:key-needs-escapes")
+    if any(k == "k" and str(r_).lstrip("-").isdigit() for k, r_ in case["segs"]):
+        bump("create:digits-key-segment" + (":negative" if any(k == "k" and str(r_).startswith("-") for k, r_ in case["segs"]) else ""))
     if ans.get("err") == "outOfModel":
         stats["oom"] += 1
         return
